@@ -314,6 +314,8 @@ func concChild() {
 	for it := first; time.Now().Before(deadline) && time.Since(born) < 8*time.Second; it++ {
 		if os.Getenv("C17_SCENARIO") == "conf" {
 			confOnce(it, writers, per, &out)
+		} else if os.Getenv("C17_SCENARIO") == "readers" {
+			readersOnce(it, writers, per, &out)
 		} else {
 			concOnce(it, writers, per, &out)
 		}
@@ -362,15 +364,19 @@ func concStage(env *vh.Env, rep *vh.Report, rng *vh.Rng) {
 		vh.Die("executable: %v", err)
 	}
 	confRace := false
-	for ch := 0; ch <= children; ch++ {
+	for ch := 0; ch <= children+1; ch++ {
 		writers := 3 + rng.Intn(10)
 		per := 30 + rng.Intn(120)
 		scenario := "rotate"
-		if ch == children { // last child: settings rewritten under load
+		if ch == children { // settings rewritten under load
 			scenario = "conf"
 			if !env.Thorough {
 				budget = 1200
 			}
+		}
+		if ch == children+1 { // concurrent readers (and readers against writers)
+			scenario = "readers"
+			per = 60 + rng.Intn(100)
 		}
 		cmd := exec.Command(self, "-driver", env.Driver, "-tier", env.Tier)
 		cmd.Env = append(os.Environ(), "C17_CHILD=conc", "C17_SCENARIO="+scenario, fmt.Sprintf("C17_WRITERS=%d", writers), fmt.Sprintf("C17_PER=%d", per),
@@ -394,6 +400,9 @@ func concStage(env *vh.Env, rep *vh.Report, rng *vh.Rng) {
 		}
 		if scenario == "conf" {
 			rep.CountN("conc:conf-rewrites-under-load", out.Iters)
+		} else if scenario == "readers" {
+			rep.CountN("conc:concurrent-reader-rounds", out.Iters)
+			rep.CountN("conc:concurrent-reads-checked", out.Lines)
 		} else {
 			rep.CountN("conc:rotations-under-load", out.Iters)
 		}
